@@ -21,7 +21,7 @@
       `elab_export_model2 xi (bundle_passes d)` has exactly the nets of the written bundle design on its terminals.
       What ties the model to hdl21 is the correspondence run (Corr/C01G.v, stream `bundle-passes`), nothing else.
 
-   Hypotheses, all boolean and evaluated per design by the run:
+   All hypotheses are boolean and evaluated per design by the run:
      pairs_wf d            attribute names of a module distinct; a Pair's port takes a scalar, a bundle INSTANCE or an anonymous
                            bundle; port references never point at a Pair                (all implied by Spec/C01BWf.v:wf_bdesign)
      bp_wf d1              (d1 = the design after InstBundleElabPass) attribute names distinct, definition trees well formed,
